@@ -844,7 +844,9 @@ class spawn(SpawnBase):
                     break
                 if output_filter:
                     data = output_filter(data)
-                self._log(data, 'read')
+                # The log files get the same string type as everywhere else
+                # (text when an encoding is set)
+                self._log(self._decoder.decode(data, final=False), 'read')
                 os.write(self.STDOUT_FILENO, data)
             if self.STDIN_FILENO in r:
                 data = self.__interact_read(self.STDIN_FILENO)
@@ -856,10 +858,10 @@ class spawn(SpawnBase):
                 if i != -1:
                     data = data[:i]
                     if data:
-                        self._log(data, 'send')
+                        self._log_control(data)
                     self.__interact_writen(self.child_fd, data)
                     break
-                self._log(data, 'send')
+                self._log_control(data)
                 self.__interact_writen(self.child_fd, data)
 
 
